@@ -22,7 +22,9 @@ CONSTANTS MaxDev,      \* how many fields may leave their base set
 VARIABLES bytes, stage, dev
 BasePfx == IF Base67 THEN <<103>> ELSE <<>>
 
-PfxRich == { <<>>, <<102>>, <<103>>, <<102,103>>, <<38>>, <<46>>, <<54>>, <<62>>, <<100>>, <<101>>, <<240>>, <<242>>, <<243>>, BasePfx }
+\* (a repeated prefix is one prefix: 66 66 and 66 2E 66 select the 16-bit operand size like a single 66)
+PfxRich == { <<>>, <<102>>, <<103>>, <<102,103>>, <<38>>, <<46>>, <<54>>, <<62>>, <<100>>, <<101>>, <<240>>, <<242>>, <<243>>, BasePfx,
+             <<102,102>>, <<102,46,102>>, <<103,103>> }
 MB(mod, reg, rm) == mod * 64 + reg * 8 + rm
 ModrmRich(d) ==
    LET regs == IF d.early THEN 0..7 ELSE {0,1,7}
